@@ -36,3 +36,18 @@ Theorem c11_durable : forall f size cs f' size' cs',
   Forall (fun nc => NoDup (node_offs (c_tree (snd nc)))) cs'.
 Proof. exact DiskProofs.flush_decodes_nodup. Qed.
 Print Assumptions c11_durable.
+
+(* ---------------------------------------------------------------------------------------------- *)
+(* REGENERATED FROM THE SOURCE ON EVERY RUN (tools/gen -> Generated.g_code; Decisions.v): the decisions the model
+   takes at these points are the evaluations of the conditions the Go source has there, for all values of their
+   variables. *)
+From GK Require Import GExpr Generated Decisions.
+From Coq Require Import String.
+
+(* CopyTo flushes after every flushEvery-th item, and never when flushEvery <= 0 *)
+Theorem c11_flush_schedule_is_source :
+  exists c, decisions "<lit:Store.CopyTo#1>" "flushEvery" = [c] /\
+    forall fe n : Z, Z.le 0 n ->
+      gtrue (upd (upd env0 "flushEvery" fe) "numItems" n) c = Some (Z.gtb fe 0 && Z.eqb (Z.modulo n fe) 0).
+Proof. exact Decisions.copyto_flush_schedule. Qed.
+Print Assumptions c11_flush_schedule_is_source.
